@@ -6,5 +6,7 @@ func init() {
 			"the operator table of the statement is the specification: the generated tree and its minimal/fully parenthesised printers encode it",
 			"`in` under `in` without parentheses (statement: left, grammar: %right), `<-`, assignment forms and ++/--/op= as expressions, float underflow spellings are outside the stated domain and not generated",
 			"a numeric literal directly before a postfix operator, an empty list literal directly before an index, and an expression reading as `for ident in`/`for {` are parenthesised in both spellings (lexical/statement-level ambiguities the table does not speak about)",
-			"token adjacency follows the language's token set (maximal munch): tokens are separated by a blank exactly where two tokens would merge")})
+			"token adjacency follows the language's token set (maximal munch): tokens are separated by a blank exactly where two tokens would merge",
+			"every text is parsed and executed by one goroutine at a time: the statement quantifies over programs and inputs, what concurrent ParseSrc calls may do to each other is the subject of C15 (\"the same text always yields the same tree, also under concurrent calls\")",
+			"in the right-chain profile `u` is bound nowhere and `n` is bound to nil; nothing is expected of a failing or nil operand except that the spelling with the implied parentheses and the one without evaluate alike")})
 }
